@@ -22,8 +22,7 @@ void h_bit_width_for_count(void) {
  * carquet_buffer_* are recorded-call stubs; memcmp is a contract stub (arbitrary result: found and not-found paths). */
 void h_dict_builder_add(void) {
   dict_builder_t b;
-  b.num_buckets = nondet_size_t();
-  __CPROVER_assume(b.num_buckets >= 1 && b.num_buckets <= 1024);
+  b.num_buckets = 1024;   /* the only value dict_builder_init ever sets; the table is never resized */
   b.buckets = malloc(b.num_buckets * sizeof(dict_entry_t *));
   b.count = nondet_size_t();
   __CPROVER_assume(b.count <= ((size_t)1 << 32) - 2);
